@@ -74,6 +74,7 @@ fn backend<B: Backend, P: Prims>(opts: &Opts, rep: &mut Report) {
             continue;
         }
         let mut rng = Rng::derive(opts.seed, &stream, idx);
+        crate::noise::sprinkle::<B>();
         let sk = secret_key::<B>(&B::gen_secret(&mut rng));
         let pk = sk.public_key();
         // a local key whose bytes equal the public key (v2/v4) or random
@@ -145,6 +146,7 @@ fn backend<B: Backend, P: Prims>(opts: &Opts, rep: &mut Report) {
                 continue;
             }
             let mut rng = Rng::derive(opts.seed, &stream, idx);
+            crate::noise::sprinkle::<B>();
             let body: [u8; 33] = if round == 0 { [0u8; 33] } else if round == 1 { [0xff; 33] } else { rng.arr() };
             let b = crate::b64::encode(&body);
             let n = b.len();
@@ -203,6 +205,7 @@ fn backend<B: Backend, P: Prims>(opts: &Opts, rep: &mut Report) {
             continue;
         }
         let mut rng = Rng::derive(opts.seed, &stream, idx);
+        crate::noise::sprinkle::<B>();
         let a: [u8; 33] = rng.arr();
         let mut b: [u8; 33] = match rng.below(4) {
             0 => a,
@@ -248,6 +251,7 @@ fn siblings<A: Backend, B: Backend>(opts: &Opts, rep: &mut Report) {
             continue;
         }
         let mut rng = Rng::derive(opts.seed, &stream, idx);
+        crate::noise::sprinkle::<B>();
         let skr = A::gen_secret(&mut rng);
         let l: [u8; 32] = rng.arr();
         let (sa, sb) = (secret_key::<A>(&skr), secret_key::<B>(&skr));
